@@ -143,3 +143,57 @@ Contract(
                'lemmas': ['sum_unfold(blocksizes, 0, i + 1)', 'sum_mono(blocksizes, 0, i + 1, len_blocksizes)',
                           'sum_mono(blocksizes, 0, 0, i)', 'sum_unfold(blocksizes, 0, 0)']}},
 )
+
+
+# ---------------------------------------------------------------------------------------------------------------
+# _find_row_differences (compiled): "[0] + [i for i in range(1, L) if rows i-1 and i differ] + [L]" for every L >= 1
+# and every number of columns; [0, L] without columns; [0] without rows.  The 2-D buffer is a ghost container
+# (uninterpreted Q(i, j)); every access is obliged to lie inside the buffer (boundscheck(False)).
+import z3 as _z3
+from pyvc.interp import Builtin as _Builtin
+from pyvc.values import SObj as _SObj, to_z3 as _t
+
+_Q = _z3.Function('qflat!elem', _z3.IntSort(), _z3.IntSort(), _z3.IntSort())
+
+
+def _frd_setup(I, env):
+    L, M = _z3.Int('rows'), _z3.Int('cols')
+    I.assume(_z3.And(L >= 0, M >= 0))
+
+    def getitem(I_, idx):
+        i, j = idx
+        zi, zj = _t(i), _t(j)
+        if not I_.spec_mode:
+            I_.oblige('buffer-access-in-range', _z3.And(0 <= zi, zi < L, 0 <= zj, zj < M), {'clause': 'qflat_c[i, j] lies inside the (rows x cols) buffer'})
+        return _Q(zi, zj)
+    env['qflat'] = _SObj('Ghost2D', None, {'shape': (L, M), '__getitem__': _Builtin(getitem, 'qflat[i, j]')})
+    jj = _z3.Int('jj!rd')
+
+    def rowdiff(I_, t):
+        zt = _t(t)
+        return _z3.Exists([jj], _z3.And(0 <= jj, jj < M, _Q(zt - 1, jj) != _Q(zt, jj)))
+    I.ghost['__env__'] = {'rows': L, 'cols': M, 'rowdiff': _Builtin(rowdiff, 'rowdiff'),
+                          'q': _Builtin(lambda I_, i, j: _Q(_t(i), _t(j)), 'q')}
+
+
+Contract(
+    target=f'{PYX}::_find_row_differences', props=['C04', 'C02', 'C06'], name='pyx:_find_row_differences',
+    params={'qflat': Const(None)}, setup=_frd_setup,
+    hooks=dict(_ALLOC, **{'global:np': builtins_model.module_model('numpy')}),     # the module-level `import numpy as np`
+    ensures=[
+        'implies(cols == 0, len(result) == 2 and result[0] == 0 and result[1] == rows)',
+        'implies(cols > 0 and rows == 0, len(result) == 1 and result[0] == 0)',
+        'implies(cols > 0 and rows > 0, len(result) >= 2 and result[0] == 0 and result[len(result) - 1] == rows)',
+        'implies(cols > 0 and rows > 0, forall(0, len(result) - 1, lambda k: result[k] < result[k + 1]))',
+        # every inner entry is a place where the rows change ...
+        'implies(cols > 0 and rows > 0, forall(1, len(result) - 1, lambda k: 1 <= result[k] < rows and rowdiff(result[k])))',
+        # ... and every such place is listed
+        'implies(cols > 0 and rows > 0, forall(1, rows, lambda t: implies(rowdiff(t), exists(1, len(result) - 1, lambda k: result[k] == t))))',
+    ],
+    loops={0: {'inv': ['L == rows and M == cols and M > 0 and L > 0 and len(res) >= L + 1 and len(res) >= 2',
+                       '1 <= n <= _i + 1 and res[0] == 0',
+                       'forall(0, n - 1, lambda k: res[k] < res[k + 1])',
+                       'forall(1, n, lambda k: 1 <= res[k] <= _i and rowdiff(res[k]))',
+                       'forall(1, _i + 1, lambda t: implies(rowdiff(t), exists(1, n, lambda k: res[k] == t)))']},
+           1: {'inv': ['M == cols and L == rows and 1 <= i < L', 'rows_equal', 'forall(0, _i, lambda c: q(i - 1, c) == q(i, c))']}},
+)
